@@ -26,7 +26,7 @@ var hosts = []string{
 
 func TestC17(t *testing.T) {
 	s := explore.NewSuite(t, "C17", "exploration",
-		"every ordered list of <=L rules (L=2 quick, 3 thorough; plus L=4 over a 6-rule sub-alphabet in thorough) drawn from 22 regular expressions x {include, exclude}, each evaluated on 27 host strings through ruleset.ParseRegexpListItem + NewRegexpMatcherFromList (+Inverse) and compared with a reference that evaluates every rule on its own with package regexp; non-trivial = the list has at least one include rule so a matcher is built and compared")
+		"every ordered list of <=L rules (L=2 quick, 3 thorough; plus L=4 over a 6-rule sub-alphabet in thorough) drawn from 22 regular expressions x {include, exclude}, each evaluated on 27 host strings through ruleset.ParseRegexpListItem + NewRegexpMatcherFromList (+Inverse) and compared with a reference that evaluates every rule on its own with package regexp; plus (concurrent-matchers, Engine T) one matcher and its inverse used by two threads at once for 4x4 hosts over 3 lists, ruleset/regexp.go rebuilt with a scheduling point before every statement, every interleaving with at most 2 (quick) / 3 (thorough) preemptions, verdicts of the two callers and of every later sequential caller compared with the per-rule reference; non-trivial = the list has at least one include rule so a matcher is built and compared")
 	s.Assume = []string{"package regexp (used for the per-rule reference) is trusted"}
 	compiled := make([]*regexp.Regexp, len(rules))
 	for i, r := range rules {
@@ -121,5 +121,7 @@ func TestC17(t *testing.T) {
 	s.Add(explore.Scenario{Name: "lists<=2", Tiers: []string{"quick"}, Run: run(2, full)})
 	s.Add(explore.Scenario{Name: "lists<=3", Tiers: []string{"thorough"}, Run: run(3, full)})
 	s.Add(explore.Scenario{Name: "lists<=4/flags", Tiers: []string{"thorough"}, Run: run(4, []int{0, 1, 4, 10, 14, 17})})
+	s.Add(explore.Scenario{Name: "concurrent-matchers", Remote: true, MaxDev: map[string]int{"quick": 2, "thorough": 3},
+		Run: func(x *explore.X) { concurrentMatchers(t, x) }})
 	s.Main()
 }
